@@ -762,7 +762,8 @@ func (runInfo *runInfoStruct) runSwitchStmt(stmt *ast.SwitchStmt) {
 		runInfo.env = env
 		return
 	}
-	value := runInfo.rv
+	// the subject is evaluated once: a case expression that writes to the place it was read from must not change it
+	value := detachValue(runInfo.rv)
 
 	for _, switchCaseStmt := range stmt.Cases {
 		caseStmt := switchCaseStmt.(*ast.SwitchCaseStmt)
